@@ -1,18 +1,13 @@
 (** C04 — instruction decoding is total, deterministic and inverse to encoding.
-    Statements only; proofs are in VIsa.DecodeProofs / VIsa.EncodeProofs.
-    Model: VIsa.Decode (insts.Disassembler.Decode with the three repairs of
-    branch work-c04) over the tables regenerated from the Go sources
-    (VGen.FormatTable, VGen.DecodeTable, VGen.RegTable).
-
-    Proved here: order-independence of format matching and hence agreement of
-    independently built decoders; absence of faults for every input; the
-    ingredients of decode∘encode (bit-field extraction, byte order, format
-    selection from the top nine bits, operand-code map).  The end-to-end
-    statements decode_encode and decode_prefix_independent are NOT proved; they
-    are checked per run on the implementation by the monitor and, for the model,
-    by DecodeCases.check_case (see docs/C04.md). *)
+    Statements only; proofs are in VIsa.DecodeProofs, EncodeProofs, RoundTrip,
+    RoundTripV, RoundTripM, PrefixProofs.
+    Model: VIsa.Decode (insts.Disassembler.Decode with the fix: commits of
+    branches work-c04 / work2-c04) over the tables regenerated from the Go
+    sources (VGen.FormatTable, VGen.DecodeTable, VGen.RegTable).
+    Encoder and specification: VIsa.Encode ([words]/[encode] from the ISA bit
+    layouts, [spec_inst] = the insts.Inst a description denotes, [wf]). *)
 From Coq Require Import NArith ZArith List String Bool Permutation Sorted Lia ZifyN ZifyNat.
-From VIsa Require Import InstTypes Decode DecodeProofs Encode EncodeProofs DecodeCases.
+From VIsa Require Import InstTypes Decode DecodeProofs Encode EncodeProofs DecodeCases RoundTrip RoundTripV RoundTripM PrefixProofs RefTable RefProofs.
 From VGen Require Import FormatTable DecodeTable RegTable.
 Import ListNotations.
 Open Scope N_scope.
@@ -82,8 +77,77 @@ Proof.
 Qed.
 Print Assumptions decode_short_buffer_is_error.
 
-(** ingredients of decode∘encode, each for all field values *)
+(** decode ∘ encode = id, for every well-formed description of each of the 13
+    supported formats — SOP2, SOPK, SOP1, SOPC, SOPP, SMEM, VOP1, VOP2 (plain,
+    32-bit literal, v_madmk/v_madak constant, SDWA), VOPC, VOP3a (incl. the
+    VOP3P op_sel fields), VOP3b, DS, FLAT (both architectures) — with all
+    operand and modifier fields symbolic, every row of the regenerated decode
+    table, and any bytes following the encoding: the decoder returns exactly the
+    instruction the description denotes and its true byte length. *)
+Theorem decode_encode : forall cdna3 d tail,
+  wf d = true -> wf_sdwa_s0_vgpr d = true ->
+  decode cdna3 (encode d ++ tail) = Ok (spec_inst cdna3 d) (dsize d).
+Proof.
+  intros c d tail W S. destruct d.
+  - apply decode_encode_sop2; exact W.
+  - apply decode_encode_sopk; exact W.
+  - apply decode_encode_sop1; exact W.
+  - apply decode_encode_sopc; exact W.
+  - apply decode_encode_sopp; exact W.
+  - apply decode_encode_smem; exact W.
+  - apply decode_encode_vop1; exact W.
+  - apply decode_encode_vop2; exact W.
+  - destruct s0; [discriminate S|]. apply decode_encode_vop2_sdwa; exact W.
+  - apply decode_encode_vopc; exact W.
+  - apply decode_encode_vop3a; exact W.
+  - apply decode_encode_vop3b; exact W.
+  - apply decode_encode_ds; exact W.
+  - apply decode_encode_flat; exact W.
+Qed.
+Print Assumptions decode_encode.
 
+(** the one excluded class (finding, by reading the GFX9 ISA): the SDWA dword
+    has the "SRC0 is an SGPR" flag S0 in bit 23 (S1 in bit 31); the decoder
+    reads it from bit 30, so an SDWA instruction with an SGPR SRC0 is decoded
+    with a VGPR SRC0 *)
+Theorem decode_encode_sdwa_s0_refuted :
+  exists d, wf d = true /\ wf_sdwa_s0_vgpr d = false /\
+            outcome_eqb (decode false (encode d)) (Ok (spec_inst false d) (dsize d)) = false.
+Proof. exists (DVop2Sdwa (row_of VOP2 25) 1 2 3 6 0 6 6 true false). vm_compute. auto. Qed.
+Print Assumptions decode_encode_sdwa_s0_refuted.
+
+(** bytes beyond the reported size never influence the result: any buffer that
+    agrees with [b] on the first [n] bytes (and has at least [n] bytes) decodes
+    to the same instruction with the same size; for every byte string, every
+    format, both architectures *)
+Theorem decode_prefix_independent : forall cdna3 b b' i n,
+  decode cdna3 b = Ok i n ->
+  firstn (N.to_nat n) b = firstn (N.to_nat n) b' -> n <= N.of_nat (List.length b') ->
+  decode cdna3 b' = Ok i n.
+Proof. intros c b b' i n. apply prefix_independent. exact format_list_in. Qed.
+Print Assumptions decode_prefix_independent.
+
+(** ... in the form  decode (b[:n] ++ anything) = decode b *)
+Theorem decode_prefix_then_anything : forall cdna3 b i n t,
+  decode cdna3 b = Ok i n -> decode cdna3 (firstn (N.to_nat n) b ++ t) = Ok i n.
+Proof.
+  intros c b i n t H. pose proof (size_within_buffer _ _ _ _ _ format_list_in H) as [_ Hl].
+  apply (prefix_independent format_list c b _ i n format_list_in H).
+  - rewrite firstn_app, firstn_firstn, Nat.min_id, firstn_length.
+    replace (N.to_nat n - Nat.min (N.to_nat n) (List.length b))%nat with 0%nat by lia.
+    rewrite firstn_O, app_nil_r. reflexivity.
+  - rewrite app_length, firstn_length. lia.
+Qed.
+Print Assumptions decode_prefix_then_anything.
+
+(** no mis-sized instruction: the reported size is at least 4 and lies within
+    the buffer (this was refuted before fix 608ebca2: ByteSize 12 on 8 bytes) *)
+Theorem decode_size_within_buffer : forall cdna3 b i n,
+  decode cdna3 b = Ok i n -> 4 <= n <= N.of_nat (List.length b).
+Proof. intros c b i n. apply size_within_buffer. exact format_list_in. Qed.
+Print Assumptions decode_size_within_buffer.
+
+(** ingredients of decode∘encode, each for all field values *)
 (** a field packed at bit [lo] with width [k] is what extractBits returns *)
 Theorem extract_packed_field : forall fs lo hi v k r,
   fields_ok fs -> drop fs lo = Some ((v, k) :: r) -> hi = lo + k - 1 -> 0 < k ->
@@ -110,6 +174,15 @@ Theorem operand_code_roundtrip : forall p,
   get_operand (code_of p) = Some (match p with PLit _ => lit_operand 255 | _ => spec_operand p 0 end).
 Proof. exact get_operand_spec. Qed.
 Print Assumptions operand_code_roundtrip.
+
+(** the regenerated decode table contains every row of the committed reference
+    table VIsa.RefTable unchanged (mnemonic, opcode, format, unit, widths): a
+    renumbered, renamed or re-sized row breaks this theorem; [decode_encode] is
+    therefore also a statement about the reference rows *)
+Theorem table_agrees_with_reference : forall r,
+  In r ref_table -> lookup (r_fmt r) (r_opcode r) = Some r /\ In r decode_table.
+Proof. exact ref_rows_present. Qed.
+Print Assumptions table_agrees_with_reference.
 
 (** known finding (feature gap): VOP3a opcode 499, used by the shipped kernel
     rotate_tensor (operator_gfx942.hsaco), has no row, so the word D1F30008 is
